@@ -88,6 +88,9 @@ struct C02Monitor {
     ta_entitlements: BTreeMap<String, ResourceSet>,
     converge_every: usize,
     since_converge: usize,
+    /// no convergence rounds before this operation index (a script that is
+    /// about what happens when a child does NOT synchronise in between)
+    hold_until: usize,
     /// (issuer, child) pairs suspended by an operation since the issuer's
     /// last observed publication: their certificates were legitimately
     /// unpublished in between.
@@ -649,7 +652,14 @@ impl Monitor for C02Monitor {
         let mut issues = self.check_issuance(w, r);
         if ctx.in_setup && ctx.op_idx + 1 != ctx.n_setup { return issues }
         self.since_converge += 1;
+        if std::env::var("KVH_DEBUG").is_ok() {
+            eprintln!("op {} {:?}: steps {:?}\n   pending {:?}", ctx.op_idx, op,
+                w.step_log.iter().rev().take(4).collect::<Vec<_>>(),
+                w.pending().iter().map(|p| (p.0, p.1.clone())).collect::<Vec<_>>());
+        }
+        if ctx.op_idx + 1 < self.hold_until { return issues }
         if self.since_converge >= self.converge_every
+            || ctx.op_idx + 1 == self.hold_until
             || ctx.op_idx + 1 == ctx.total || ctx.op_idx + 1 == ctx.n_setup
         {
             self.since_converge = 0;
@@ -669,7 +679,7 @@ fn boundary_script(which: u64) -> (Vec<Op>, bool) {
             v4: v4.into(), v6: v6.into(),
         }
     };
-    match which % 5 {
+    match which % 6 {
         // suspend + unsuspend the leaf, then shrink its issuer
         0 => (vec![
             Op::ChildSuspend { parent: "mid".into(), child: "leaf".into() },
@@ -708,6 +718,18 @@ fn boundary_script(which: u64) -> (Vec<Op>, bool) {
                 v6: "".into() },
             Op::SyncParent { ca: "c1".into() }, Op::Quiesce,
         ], false),
+        // the issuer loses and regains resources before its child has
+        // synchronised again (children call in at their own pace, krill's
+        // every ten minutes; nothing makes them call earlier): the child's
+        // certificate was cut down in between and has to be regained
+        5 => (vec![
+            upd("top", "mid", "AS65000-AS65005", "10.0.0.0/16",
+                "2001:db8::/48"),
+            Op::Quiesce,
+            upd("top", "mid", "AS65000-AS65005", "10.0.0.0/16, 10.1.0.0/16",
+                "2001:db8::/48"),
+            Op::Quiesce,
+        ], true),
         // mapped class name on a grandchild, then shrink
         _ => (vec![
             Op::AddCaMapped { ca: "kid".into(), parent: "mid".into(),
@@ -726,8 +748,8 @@ fn run_history(
     replay_chain: Option<bool>, replay_steps: Option<Vec<Option<String>>>,
 ) -> bool {
     let mut rng = Rng::new(seed);
-    let boundary = if idx < 5 { Some(idx) }
-        else if rng.chance(1, 3) { Some(rng.below(5)) } else { None };
+    let boundary = if idx < 6 { Some(idx) }
+        else if rng.chance(1, 3) { Some(rng.below(6)) } else { None };
     let (bscript, chain) = match boundary {
         Some(b) => boundary_script(b),
         None => (vec![], rng.chance(1, 2)),
@@ -743,7 +765,8 @@ fn run_history(
     let n_setup = script.len();
     script.extend(bscript);
     let mut m = C02Monitor {
-        converge_every: if idx < 5 { 2 } else { 4 },
+        converge_every: if idx < 6 { 2 } else { 4 },
+        hold_until: if boundary == Some(5) { script.len() } else { 0 },
         ..Default::default()
     };
     r.distinct("configs", format!("chain={chain}/mem={memory}/b={boundary:?}"));
@@ -772,8 +795,8 @@ fn main() {
     }
     let mut idx = 0u64;
     loop {
-        let hist_idx = if idx == 0 && args.shard < 5 { args.shard }
-            else { 5 + idx };
+        let hist_idx = if idx == 0 && args.shard < 6 { args.shard }
+            else { 6 + idx };
         let seed = args.shard_seed().wrapping_mul(7919).wrapping_add(hist_idx);
         run_history(&mut r, &args, hist_idx, seed, None, None, None);
         idx += 1;
